@@ -781,6 +781,25 @@ impl<N: ComplexField> BDFCoefficients<3> for BDF2Coefficients<N> {
 /// }
 pub type BDF2<'a, N, D, T, F> = BDF<'a, N, D, 3, T, F, BDF2Coefficients<N>>;
 
+// Verification hook (off by default, enabled only with `--cfg bacon_verif`):
+// read-only view of the step bounds the solver was handed by its builder.
+#[cfg(bacon_verif)]
+impl<'a, N, D, const O: usize, T, F> BDFSolver<'a, N, D, O, T, F>
+where
+    D: Dimension,
+    N: ComplexField + Copy,
+    T: Clone,
+    F: Derivative<N, D, T> + 'a,
+    D: DimMin<D, Output = D>,
+    DefaultAllocator: Allocator<N, D>,
+    DefaultAllocator: Allocator<N, D, D>,
+{
+    #[doc(hidden)]
+    pub fn verif_dt_bounds(&self) -> (N::RealField, N::RealField) {
+        (self.dt_min.real(), self.dt_max.real())
+    }
+}
+
 #[cfg(test)]
 mod test {
     use super::*;
